@@ -157,6 +157,15 @@ def run(tier, seed, replay=None):
             g2 = RG(x, f2)                                # ... and a second objective at the SAME base point object
             ref2 = P(x, tgt2)
             if not (nrm(g2 - ref2) <= 1e-8 * max(nrm(ref2), 1e-300) + 1e-10): fails.append("a second riemannian_gradient at the same base point object differs from P(Euclidean gradient): rel %.3g" % (nrm(g2 - ref2) / max(nrm(ref2), 1e-300)))
+            if int((x.M if ttm else x.N)[0]) >= 2:
+                # an objective whose VALUE is exactly zero at the base point while its gradient is not: a linear functional supported on the index-0
+                # slice of the first mode, at a base point whose index-0 slice vanishes (f = 0 does not mean "already at a minimiser")
+                xc0 = [c.clone() for c in x.cores]; xc0[0][:, 0] = 0; x0_ = torchtt.TT(xc0)
+                a3 = mk(solverkit.ranks(rng, d, 2)); ac3 = [c.clone() for c in a3.cores]; ac3[0][:, 1:] = 0; a3 = torchtt.TT(ac3)
+                f3 = (lambda y: torchtt.dot(y, a3)) if not ttm else (lambda y: (y * a3).sum())
+                if float(abs(f3(x0_))) == 0.0: dist["objective exactly zero at the base point"] = dist.get("objective exactly zero at the base point", 0) + 1
+                g3 = RG(x0_, f3); ref3 = P(x0_, a3)
+                if not (nrm(g3 - ref3) <= 1e-8 * max(nrm(ref3), 1e-300) + 1e-10): fails.append("riemannian_gradient of an objective that vanishes at the base point differs from P(Euclidean gradient): rel %.3g" % (nrm(g3 - ref3) / max(nrm(ref3), 1e-300)))
             bad2 = solverkit.intact(snaps, [x, z, w])
             if bad2: fails.append("operand modified by riemannian_gradient: " + bad2[0])
             ref = P(x, egrad)
